@@ -127,6 +127,7 @@ class OrderCheck(E2ECheck):
                 start += per
         for i in range(6 if tier == "quick" else 24):
             specs.append({"z3direct": True, "seed": seed, "shard": i, "count": 10 if tier == "quick" else 60})
+        specs += self.shadow_direct_shards(tier, seed)
         return specs
 
     def run_shard(self, spec, workdir):
